@@ -136,7 +136,7 @@ theorem refines_ideal_fixed (prog : List Stmt) (sched : List Pick) (σ : State) 
 /-! ### F08 (repaired): one `select` statement executed by two goroutines -/
 
 /-- two workers run `select { case v := <-own: fmt.Println(v) }`, each with a private channel holding one value -/
-def xProg : List Stmt := [.select [⟨.recv, 0, 0, 1⟩], .print 0, .halt]
+def xProg : List Stmt := [.select [{ dir := .recv, ch := 0, slot := 0, target := 1 }], .print 0, .halt]
 def xState : State := mkState [mkAct [0] [0], mkAct [0] [1]] [⟨[10], 1, false⟩, ⟨[20], 1, false⟩]
 /-- worker 0 fills its case vector, worker 1 fills its own, worker 0 calls reflect.Select -/
 def xSched : List Pick := [⟨0, 0⟩, ⟨1, 0⟩, ⟨0, 0⟩, ⟨0, 0⟩, ⟨0, 0⟩]
@@ -182,7 +182,7 @@ theorem old_table_crosstalk_witness : ¬ IsolationStatement Expected.C08.closure
 /-- send direction: with the old table worker 0's `select { case own <- v: }` deposits a value in worker 1's
     channel (and it is worker 1's value: `cases[i].Send` was shared too) and its own channel stays empty; with
     the table of the current source every worker sends its own value on its own channel -/
-def sProg : List Stmt := [.select [⟨.send, 0, 0, 1⟩], .halt]
+def sProg : List Stmt := [.select [{ dir := .send, ch := 0, slot := 0, target := 1 }], .halt]
 def sState : State := mkState [mkAct [7] [0], mkAct [9] [1]] [⟨[], 2, false⟩, ⟨[], 2, false⟩]
 
 theorem old_table_send_crosstalk :
@@ -192,6 +192,17 @@ theorem old_table_send_crosstalk :
 theorem select_send_isolated_now :
     ((run Generated.C08.closureWrites sProg [⟨0, 0⟩, ⟨1, 0⟩, ⟨0, 0⟩, ⟨1, 0⟩] sState).heap 0).buf = [7] ∧
     ((run Generated.C08.closureWrites sProg [⟨0, 0⟩, ⟨1, 0⟩, ⟨0, 0⟩, ⟨1, 0⟩] sState).heap 1).buf = [9] := by
+  rw [closurewrites_tie]; decide
+
+/-- two-value and assignment forms of receive clauses (`case x, ok = <-own:`), since the repairs of F08-1/3/5 in the
+    default stream: two workers, the value and the status go to each worker's own slots -/
+def tProg : List Stmt :=
+  [.select [{ dir := .recv, ch := 0, slot := 0, target := 1, ok := some 1 }], .print 0, .print 1, .halt]
+def tState : State := mkState [mkAct [0, 0] [0], mkAct [0, 0] [1]] [⟨[10], 1, false⟩, ⟨[], 1, true⟩]
+
+theorem select_recv2_isolated_now :
+    trace 0 (run Generated.C08.closureWrites tProg [⟨0, 0⟩, ⟨1, 0⟩, ⟨0, 0⟩, ⟨1, 0⟩, ⟨0, 0⟩, ⟨0, 0⟩, ⟨0, 0⟩, ⟨0, 0⟩] tState) = [10, 1] ∧
+    trace 1 (run Generated.C08.closureWrites tProg [⟨0, 0⟩, ⟨1, 0⟩, ⟨0, 0⟩, ⟨1, 0⟩, ⟨1, 0⟩, ⟨1, 0⟩, ⟨1, 0⟩, ⟨1, 0⟩] tState) = [0, 0] := by
   rw [closurewrites_tie]; decide
 
 /-- two workers run `for v := range own { fmt.Println(v) }`, each over a private, filled and closed channel -/
@@ -279,13 +290,44 @@ theorem go_args_alias_witness :
     read (runOps false [.write 0 0 2] (stepOp false m (.call 0 [0]))) 1 0 = 2 ∧
     read (runOps true [.write 0 0 2] (stepOp true m (.call 0 [0]))) 1 0 = 1 := by decide
 
-/-- WITNESS (F08-2): a go statement on a BINARY function goes through callBin, whose go branch does not copy
-    (the fact is read from the source): the goroutine sees the parent's later assignment -/
-theorem callbin_go_args_witness :
-    Generated.C08.goFacts.callBinGoArgsCopied = false ∧
+/-- FULL (since the repair of F08-2, fact read from callBin's go branch): a goroutine started by `go hostFn(args)` —
+    a binary function or method — keeps seeing the argument values of the moment of the go statement -/
+theorem go_args_private_host_generated (m : Mem) (h : Owns m) (fr : Nat) (args : List Nat) (ops : List Op)
+    (hothers : ∀ op ∈ ops, op.frame ≠ m.frames.length) (j : Nat) (hj : j < args.length) :
+    read (runOps Generated.C08.goFacts.callBinGoArgsCopied ops
+            (stepOp Generated.C08.goFacts.callBinGoArgsCopied m (.call fr args))) m.frames.length j
+      = read m fr (args.getD j 0) := by
+  have : Generated.C08.goFacts.callBinGoArgsCopied = true := by rw [gofacts_tie]; decide
+  rw [this]
+  exact go_args_private m h fr args ops hothers j hj
+
+/-- FULL (since the repair of F08-4, fact read from genFunctionWrapper): the receiver of `go x.M(args)` on a method of a
+    script type is an operand of the go statement like any argument — it is read when the method value is made and a
+    value receiver is copied — so the goroutine keeps seeing the receiver of the moment of the go statement
+    (operand 0 of the call in the frame model) whatever the other frames do -/
+theorem go_receiver_private_generated (m : Mem) (h : Owns m) (fr : Nat) (recv : Nat) (args : List Nat) (ops : List Op)
+    (hothers : ∀ op ∈ ops, op.frame ≠ m.frames.length) :
+    read (runOps Generated.C08.goFacts.wrapperRecvBound ops
+            (stepOp Generated.C08.goFacts.wrapperRecvBound m (.call fr (recv :: args)))) m.frames.length 0
+      = read m fr recv := by
+  have : Generated.C08.goFacts.wrapperRecvBound = true := by rw [gofacts_tie]; decide
+  rw [this]
+  have := go_args_private m h fr (recv :: args) ops hothers 0 (by simp)
+  simpa using this
+
+/-- REGRESSION EXAMPLES / WHAT THE OLD FACTS ALLOWED (F08-2: callBin's go branch passed the frame values; F08-4: the
+    receiver was read inside the wrapper's callback): an operand that is not copied at the go statement shows the
+    parent's later assignment (`y := 10; go m.Store("k", y); y = 20` stored 20; `go accs[w].run()` in a loop ran the
+    last receiver); with the facts of the current source the goroutine sees 10 -/
+theorem go_operands_old_facts_witness :
+    (let m : Mem := { cells := [10], owner := [0], frames := [[0]] }
+     read (runOps false [.write 0 0 20] (stepOp false m (.call 0 [0]))) 1 0 = 20) ∧
     (let m : Mem := { cells := [10], owner := [0], frames := [[0]] }
      read (runOps Generated.C08.goFacts.callBinGoArgsCopied [.write 0 0 20]
-            (stepOp Generated.C08.goFacts.callBinGoArgsCopied m (.call 0 [0]))) 1 0 = 20) := by
+            (stepOp Generated.C08.goFacts.callBinGoArgsCopied m (.call 0 [0]))) 1 0 = 10) ∧
+    (let m : Mem := { cells := [10], owner := [0], frames := [[0]] }
+     read (runOps Generated.C08.goFacts.wrapperRecvBound [.write 0 0 20]
+            (stepOp Generated.C08.goFacts.wrapperRecvBound m (.call 0 [0]))) 1 0 = 10) := by
   rw [gofacts_tie]; decide
 
 theorem stepOp_frames_other (cp : Bool) (m : Mem) (op : Op) (k : Nat) (hk : k < m.frames.length) (hne : op.frame ≠ k) :
@@ -354,7 +396,8 @@ theorem locks_in_place :
     Generated.C08.goFacts.cloneLocked = true ∧ Generated.C08.goFacts.getFuncStoreLocked = true ∧
     Generated.C08.goFacts.getFuncRestoreLocked = true ∧ Generated.C08.goFacts.selectDoneLocked = true ∧
     Generated.C08.goFacts.goBinArgsCopied = true ∧ Generated.C08.goFacts.wrapperFramePerCall = true ∧
-    Generated.C08.goFacts.selectCopiesCases = true := by
+    Generated.C08.goFacts.selectCopiesCases = true ∧ Generated.C08.goFacts.callBinGoArgsCopied = true ∧
+    Generated.C08.goFacts.wrapperRecvBound = true := by
   rw [gofacts_tie]; decide
 
 end YaegiVerif.Props.C08
